@@ -16,5 +16,6 @@ CHECK = {
  'level_text': 'all placements of read faults within all reading sequences up to the depth bound, on the real monitor code',
  'level_note': 'bounded depth and value alphabet; the 2 s command timeout fault is covered by C19, not here',
  'runs': [{'pkg': 'internal', 'test': 'TestVX_C08', 'shards_quick': 16, 'shards_thorough': 16},
-          {'pkg': 'internal', 'test': 'TestVX_C08monitor', 'shards_quick': 6, 'shards_thorough': 9}],
+          {'pkg': 'internal', 'test': 'TestVX_C08monitor', 'shards_quick': 6, 'shards_thorough': 9},
+          {'pkg': 'internal/configuration', 'test': 'TestVX_C08option', 'shards_quick': 1, 'shards_thorough': 1}],
 }
